@@ -74,13 +74,19 @@ def valid_table(t):
         return len(pos) <= 3 and all(x in G2_POS for x in pos) and len({tuple(r) for r in t["routes"]}) == 3
     if fb.startswith("pos:"):
         return False
+    if kind in ("dnest", "pdom") and dom == "none":
+        return False
+    if kind == "dnest" and (dom == "one" or n < 2):
+        return False
+    if kind == "pdom" and dom != "one":
+        return False
     if dom == "none":
         if st == "flat" and fb in ("nested", "both"):
             return False
-        if kind == "split" and n < 2:
+        if kind in ("split", "pnsplit") and n < 2:
             return False
     else:
-        if kind == "nest2":
+        if kind in ("nest2", "pnest", "pnsplit"):
             return False
         if dom == "one" and kind == "split":
             return False
@@ -127,6 +133,16 @@ def tables_for(tier):
                 for st in ("flat", "nest:/p", "split:/p"):
                     for fb in FBS:
                         add("Q4:domains", T(rs, st, fb, dm))
+        # Q6 inherited constraints: a prefix-less (or domain-only) blueprint nested inside a prefixed one, a domain guard
+        # nested inside another domain guard
+        for rs in ([("a", "get"), ("ab", "post")], [("ax", "gp"), ("root", "get")]):
+            for st in ("pnest:/p", "pnsplit:/p"):
+                for fb in FBS:
+                    add("Q6:inherited-prefix", T(rs, st, fb))
+            for fb in ("none", "both"):
+                add("Q6:inherited-prefix", T(rs, "pdom:/p", fb, "one"))
+                for dm in ("lit+param", "catch+lit"):
+                    add("Q6:domain-in-domain", T(rs, "dnest", fb, dm))
         # Q5 grouping blueprints without prefixes: [nest{r0, S?}, nest{G1?, nest{r1, L1?}}, nest{G2?, nest{r2, L2?}}, R?]
         # every set of <= 3 fallback positions (inside one domain nest, so that the tables can be packed without a
         # path prefix on the chain), and 8 position sets without any domain (served alone)
@@ -164,6 +180,15 @@ def tables_for(tier):
                 for st in ("flat", "nest:/p", "nest:/p/{q}", "split:/p"):
                     for fb in FBS:
                         add("T4:domains", T(rs, st, fb, dm))
+        for rs in r3:
+            for st in ("pnest:/p", "pnsplit:/p", "pnest:/p/{q}"):
+                for fb in FBS:
+                    add("T7:inherited-prefix", T(rs, st, fb))
+        for rs in r4:
+            for fb in FBS:
+                add("T7:inherited-prefix", T(rs, "pdom:/p", fb, "one"))
+                for dm in ("lit+param", "catch+lit"):
+                    add("T7:domain-in-domain", T(rs, "dnest", fb, dm))
         # T5 three routes: all triples of distinct paths, method guards rotating, flat and nested
         for tri in itertools.combinations(PK, 3):
             for ms in (("get", "post", "gp"), ("any", "foo", "get"), ("foo", "anyns", "post")):
@@ -233,7 +258,15 @@ def table_ops(t, fbs=SINGLE_FBS, tld="t", with_root_fb=True):
         if kind == "nest2":
             p1, p2 = arg.split("+")
             return [nest_op([nest_op(routes + nfb(0), prefix=p2)], prefix=p1)] + rootfb
+        if kind == "pnest":  # a prefix-LESS blueprint nested inside a prefixed one: it inherits the prefix
+            return [nest_op([nest_op(routes + nfb(0))], prefix=arg)] + rootfb
+        if kind == "pnsplit":
+            return [nest_op([routes[0], nest_op(routes[1:] + nfb(0))], prefix=arg)] + rootfb
         raise AssertionError(st)
+    if kind == "pdom":  # a domain-guarded blueprint (no prefix of its own) nested inside a prefixed one
+        return [nest_op([nest_op(routes + nfb(0), domain=doms[0])], prefix=arg)] + rootfb
+    if kind == "dnest":  # a domain guard nested inside another domain guard: the innermost one is the effective one
+        return [nest_op(routes[:1] + nfb(0) + [nest_op(routes[1:] + nfb(1), domain=doms[1])], domain=doms[0])] + rootfb
     if len(doms) == 1:
         return [nest_op(routes + nfb(0), prefix=arg if kind == "nest" else None, domain=doms[0])] + rootfb
     p0 = arg if kind == "nest" else None
@@ -250,6 +283,8 @@ def single_spec(idx, t):
 def pack_group(t):
     if t["struct"] == "g2" and t["dom"] == "none":
         return "solo"  # a mount prefix on the chain would change what is being checked
+    if t["struct"].startswith("pdom"):
+        return "solo"  # its prefix-only root-level blueprint would cover the paths of the other members of a domain pack
     if t["dom"] == "none":
         return "plain"
     return "domroot" if t["fb"] in ("root", "both") else "dom"
@@ -294,7 +329,7 @@ S1 = paths_upto(1)
 def table_paths(t, tier):
     full = list(S3)
     kind, _, arg = t["struct"].partition(":")
-    if kind in ("nest", "split", "nest2"):
+    if kind in ("nest", "split", "nest2", "pnest", "pnsplit", "pdom"):
         insts = ["/p"] if arg == "/p" else ["/p/zz", "/p/a"]
         for i, inst in enumerate(insts):
             full += [inst + s for s in (S3 if i == 0 else S2)]
@@ -546,6 +581,14 @@ def expect(model, method, path, host):
                 break
             alts.append((e, f"{cv}-prefix"))
             tags.append(f"{cv}-prefix")
+        # a blueprint nested WITHOUT a prefix of its own inside a prefixed one: the property's statement ("the innermost
+        # blueprint whose prefix ... covers the request", prefixes being concatenated) designates its fallback,
+        # Blueprint::fallback ("Nesting without prefix": only method mismatches on its own routes) designates the
+        # parent's; the documentation does not settle it, both are accepted
+        for n in sorted(model.nodes, key=lambda n: -n.depth):
+            if not n.own and n.psegs and n.domain in (None, dom) and cover(n, rsegs) in ("proper", "bare", "string") and n.fallback:
+                alts.append((("f", n.fallback, frozenset()), "inherited-prefix-grouping"))
+                tags.append("inherited-prefix-grouping")
         decider = None
         if dom is not None:
             # the selected domain's nest does not cover the path with its prefix: "prefix/domain covers" can be
